@@ -547,7 +547,7 @@ def register(R, tier="quick"):
         return z3.BoolVal(isinstance(res, PyList) and res.items == [] and [getattr(x, "k", None) for x in merged] == list(range(len(segs))))
 
     W_ = "whoosh.writing"
-    R.contract(W_ + ":MERGE_SMALL", props=["C06", "C07"], setup=mp_setup,
+    R.contract(W_ + ":MERGE_SMALL", props=["C06", "C07", "C02", "C03"], setup=mp_setup,
                variants=[dict(nseg=n) for n in (6, 8, 5, 4, 1, 0)],
                ensures=[mp_post],
                opts={"builtin_override": {"sorted": Builtin("sorted", lambda I, args, kw, node: args[0])}},
@@ -557,6 +557,8 @@ def register(R, tier="quick"):
                             "segment lists of 0, 1, 4, 5, 6, 8 entries with arbitrary sizes"],
                note="the default merge policy partitions the segments: each is either kept for the new TOC or merged into the "
                     "new segment through add_reader, never both, never neither")
-    R.contract(W_ + ":OPTIMIZE", props=["C06", "C07"], setup=mp_setup, variants=[dict(nseg=n) for n in (0, 1, 3)],
+    R.contract(W_ + ":OPTIMIZE", props=["C06", "C07", "C02", "C03"], setup=mp_setup, variants=[dict(nseg=n) for n in (0, 1, 3)],
                ensures=[mp_post_all], 
-               note="optimize merges every segment")
+               note="optimize merges every segment (C02/C03: a merge policy only partitions the segment list and feeds readers to "
+                    "the writer - anything else it does to a committed segment, e.g. deleting its files before the new TOC "
+                    "exists, is outside the stub's interface and refuted as an escaping exception)")
